@@ -83,7 +83,7 @@ Qed.
 (* unfolding equations of [canonical] *)
 Lemma canonical_set_ml r gr body cg ind : body <> [] -> has_nl (ctext (CSet r gr body cg)) = true ->
   canonical (CSet r gr body cg) ind =
-  (if r then streq gr [" "] else true) &&
+  (if r then streq gr [" "] else isnil_b gr) &&
   (lines_ok (fun n => canonical n (ind + 2)) true (ind + 2) body None false
    && streq cg (LF :: (if spec_q1 body then [] else blank cg) ++ sp ind)).
 Proof.
@@ -107,7 +107,7 @@ Proof.
 Qed.
 Lemma canonical_set_inl r gr body cg ind : body <> [] -> has_nl (ctext (CSet r gr body cg)) = false ->
   canonical (CSet r gr body cg) ind =
-  (if r then streq gr [" "] else true) && (inline_ok_all (fun n => canonical n (ind + 2)) body && streq cg [" "]).
+  (if r then streq gr [" "] else isnil_b gr) && (inline_ok_all (fun n => canonical n (ind + 2)) body && streq cg [" "]).
 Proof.
   intros Hb Hnl. cbn [canonical]. rewrite Hnl. cbn [negb].
   match goal with |- context [?F body && streq cg _] =>
